@@ -111,6 +111,17 @@ def fingerprint_part(part):
     return fp
 
 
+def structure_tree(score):
+    import partitura.score as S
+
+    def node(x):
+        if isinstance(x, S.PartGroup):
+            return ("group", x.group_symbol, x.group_name, [node(c) for c in x.children])
+        return ("part", x.id)
+    ps = getattr(score, "part_structure", None)
+    return [node(x) for x in (ps if ps is not None else score.parts)]
+
+
 def fingerprint(score):
     return [fingerprint_part(p) for p in score.parts]
 
@@ -251,6 +262,12 @@ def check_roundtrip(ctx, arg, xml_bytes, label):
         ctx.check(len(fa))
         if len(fa) != len(fb):
             ctx.violation("roundtrip-differs:number-of-parts", f"{len(fa)} parts saved, {len(fb)} loaded", w)
+            return
+        # the same part groups: the tree of groups (symbol, name) with the parts as leaves, not only each part's chain of ancestors
+        ta, tb = structure_tree(score_arg), structure_tree(back)
+        ctx.check()
+        if ta != tb:
+            ctx.violation("roundtrip-differs:part-group-tree", f"saved {ta}, loaded {tb}", w)
             return
         for pa, pb, part in zip(fa, fb, score_arg.parts):
             nums = [m_[0] for m_ in sorted(pa["measures"], key=lambda m_: m_[2])]
@@ -421,7 +438,7 @@ def run_item(ctx, item):
     ctx.c03_label = f"generated:{item[1]}"
     feats = [f for f in ("chords", "rests", "ties", "graces", "tuplets", "multivoice", "multistaff", "slurs", "clefs", "keys", "pickup",
                          "ts_changes", "div_changes", "fermata", "articulations", "directions") if rng.random() < 0.6]
-    n_parts = rng.choice([1, 1, 2, 3])
+    n_parts = rng.choice([1, 1, 2, 3, 3])
     sc = gen_score.make_score(rng, n_parts=n_parts, features=feats, groups=rng.random() < 0.4, profile="full")
     sc = importer_image(sc, rng)
     # more of the statement's attribute list: fingering, stems, unpitched notes, clef changes inside a measure
